@@ -479,6 +479,8 @@ def check_C16(A, R, tier):
     # R16.3: the failure reaches the dependants (they become upstream-failed)
     from rules_more import rule_failure_propagation
     rule_failure_propagation(A, R, "R16.3", "R16.3")
+    # R16.5: 'records nothing for it' (= R8.2): a started job that did not succeed loses both own records in new_history
+    rule_started_failed_dropped(A, R, "R16.5")
     # R16.4: 'inputs unchanged' (the Validated tag under which the check is made) is only concluded through comparisons (= R3.3)
     rule_validation_verdict(A, R, "R16.4")
     # nowhere else
